@@ -1,6 +1,6 @@
 //! C11 — read-only evaluation equals mutable evaluation and never mutates.
 
-use super::c08::{base_model, corpus_exhaustive, random_model, random_program};
+use super::c08::{base_model, corpus_exhaustive, random_model, random_program, typed_model, typed_program};
 use super::exec::{self, Entry};
 use crate::api::{self, Built, Got};
 use crate::fw::{Cfg, Out, Phase};
@@ -208,9 +208,14 @@ impl Phase for Random {
         self.n
     }
     fn run(&mut self, _idx: u64, r: &mut Rng, out: &mut Out) {
-        let ast = random_program(r, 10);
-        let m = random_model(r);
-        check_program(out, &ast, &m, r);
+        if r.chance(1, 2) {
+            let ast = typed_program(r, 8);
+            check_program(out, &ast, &typed_model(), r);
+        } else {
+            let ast = random_program(r, 10);
+            let m = random_model(r);
+            check_program(out, &ast, &m, r);
+        }
     }
 }
 
